@@ -27,7 +27,8 @@ use crate::prelude::max;
 /// Generates evenly spaced values within a given interval. Values generated in the half-open
 /// interval [start, stop). That is, the stop point is not included.
 pub fn arange(start: f64, stop: f64, step: f64) -> Vector {
-    let n = (stop - start) / step;
+    // number of points start + i * step that lie below stop
+    let n = ((stop - start) / step).ceil();
     (0..n as usize)
         .map(|i| start as f64 + i as f64 * step)
         .collect::<Vector>()
